@@ -297,15 +297,18 @@ theorem wire_and_store_routes_serve_shared_only (H : Bytes → UInt64) (st : Sto
   · intro h
     simpa [normalizeKeyScope] using (route_identity_storeLookup H st n qtype qclass cd e h).2.2.2.2
 
--- non-vacuity: a /24-scoped answer reaches 192.0.2.77/32 and not 192.0.3.77/32 (constant hash: all keys collide)
+-- non-vacuity: a /24-scoped answer (under its own key, with a hash that separates these preimages)
+-- reaches 192.0.2.77/32 and 192.0.2.0/25, not 192.0.3.77/32, not the wider 192.0.0.0/16, not a client without ECS
 example :
+    let Hh : Bytes → UInt64 := fun b => UInt64.ofNat (b.foldl (fun acc x => acc * 257 + x.toNat + 1) 0)
     let s : Prefix := { v6 := false, bits := 24, addr := [192, 0, 2, 0] }
     let a : Entry := { id := 1, name := [0x61, 0x2E], qtype := 1, qclass := 1, cd := false, scope := some s }
-    let st : Store := fun _ => some a
-    decodedHit (fun _ => 7) st [0x61, 0x2E] 1 1 false (some { v6 := false, bits := 32, addr := [192, 0, 2, 77] }) = some a ∧
-    decodedHit (fun _ => 7) st [0x61, 0x2E] 1 1 false (some { v6 := false, bits := 32, addr := [192, 0, 3, 77] }) = none ∧
-    decodedHit (fun _ => 7) st [0x61, 0x2E] 1 1 false (some { v6 := false, bits := 16, addr := [192, 0, 0, 0] }) = none ∧
-    decodedHit (fun _ => 7) st [0x61, 0x2E] 1 1 false none = none := by decide
+    let st : AStore := [((CacheKey.mk a.name 1 1 false (some s)).hash Hh, a)]
+    decodedHit Hh st.get [0x41, 0x2E] 1 1 false (some { v6 := false, bits := 32, addr := [192, 0, 2, 77] }) = some a ∧
+    decodedHit Hh st.get [0x61, 0x2E] 1 1 false (some { v6 := false, bits := 25, addr := [192, 0, 2, 0] }) = some a ∧
+    decodedHit Hh st.get [0x61, 0x2E] 1 1 false (some { v6 := false, bits := 32, addr := [192, 0, 3, 77] }) = none ∧
+    decodedHit Hh st.get [0x61, 0x2E] 1 1 false (some { v6 := false, bits := 16, addr := [192, 0, 0, 0] }) = none ∧
+    decodedHit Hh st.get [0x61, 0x2E] 1 1 false none = none := by decide
 
 /-! ## Subtree cuts and cached failures -/
 
@@ -394,19 +397,19 @@ theorem firstZoneWire_spec (H : Bytes → UInt64) (fs : FStore) (qclass : UInt16
   induction zs with
   | nil => simp [firstZoneWire] at h
   | cons z t ih =>
-    have tail : ∀ g, firstZoneWire H fs qclass t = some g →
-        g.active = true ∧ g.kind = FKind.zone ∧ g.qclass = qclass ∧
-          ∃ z' ∈ z :: t, ∃ pz, present z' = some pz ∧ foldName pz = foldName g.name := by
-      intro g hg
+    have tail : firstZoneWire H fs qclass t = some f →
+        f.active = true ∧ f.kind = FKind.zone ∧ f.qclass = qclass ∧
+          ∃ z' ∈ z :: t, ∃ pz, present z' = some pz ∧ foldName pz = foldName f.name := by
+      intro hg
       obtain ⟨a, b, c, z', hz', rest⟩ := ih hg
       exact ⟨a, b, c, z', List.mem_cons_of_mem _ hz', rest⟩
     unfold firstZoneWire at h
     cases hk : keyWirePreimage z 6 qclass false with
-    | none => simp only [hk] at h; exact tail f h
+    | none => simp only [hk] at h; exact tail h
     | some pre =>
       simp only [hk] at h
       cases hs : fs (H pre ^^^ failureZoneHashSalt) with
-      | none => simp only [hs] at h; exact tail f h
+      | none => simp only [hs] at h; exact tail h
       | some e =>
         simp only [hs] at h
         split at h
@@ -416,7 +419,7 @@ theorem firstZoneWire_spec (H : Bytes → UInt64) (fs : FStore) (qclass : UInt16
           simp only [Bool.and_eq_true, beq_iff_eq] at hc
           obtain ⟨p, hp, hf⟩ := (wireNameEq_iff' z e.name).mp hc.1.2
           exact ⟨hc.2, hc.1.1.1, hc.1.1.2, z, List.mem_cons_self, p, hp, hf⟩
-        · exact tail f h
+        · exact tail h
 
 /-- what the wire failure lookup may serve. -/
 def WireFailOK (w : Bytes) (qtype qclass : UInt16) (cd : Bool) (f : FEntry) : Prop :=
@@ -446,18 +449,16 @@ theorem route_identity_failureLookupWire (H : Bytes → UInt64) (fs : FStore) (w
     | none => simp only [hs] at h; exact zone f h
     | some e =>
       simp only [hs] at h
-      split at h
-      · rename_i hc heq
-        split at heq
-        · rename_i hcond
-          simp only [Option.some.injEq] at heq h
-          subst heq; subst h
-          simp only [Bool.and_eq_true, beq_iff_eq, Option.isNone_iff_eq_none] at hcond
-          obtain ⟨p, hp, hf⟩ := (wireNameEq_iff' w hc.name).mp hcond.1.2
-          exact ⟨hcond.2, Or.inl ⟨hcond.1.1.1.1.1.1, hcond.1.1.1.1.2, hcond.1.1.1.2, hcond.1.1.2,
-            hcond.1.1.1.1.1.2, p, hp, hf⟩⟩
-        · cases heq
-      · exact zone f h
+      by_cases hcond : (e.kind == FKind.question && e.scope.isNone && e.qtype == qtype && e.qclass == qclass &&
+          e.cd == cd && wireNameEqualsPresentation w e.name && e.active) = true
+      · simp only [hcond, if_true, Option.some.injEq] at h
+        subst h
+        simp only [Bool.and_eq_true, beq_iff_eq, Option.isNone_iff_eq_none] at hcond
+        obtain ⟨p, hp, hf⟩ := (wireNameEq_iff' w e.name).mp hcond.1.2
+        exact ⟨hcond.2, Or.inl ⟨hcond.1.1.1.1.1.1, hcond.1.1.1.1.2, hcond.1.1.1.2, hcond.1.1.2,
+          hcond.1.1.1.1.1.2, p, hp, hf⟩⟩
+      · simp only [hcond] at h
+        exact zone f h
 
 theorem firstCut_spec (cs : List Cut) (qclass : UInt16) (cands : List Bytes) (c : Cut)
     (h : firstCut cs qclass cands = some c) :
@@ -465,14 +466,14 @@ theorem firstCut_spec (cs : List Cut) (qclass : UInt16) (cands : List Bytes) (c 
   induction cands with
   | nil => simp [firstCut] at h
   | cons cand t ih =>
-    have tail : ∀ g, firstCut cs qclass t = some g →
-        g ∈ cs ∧ g.active = true ∧ g.qclass = qclass ∧ g.name ∈ cand :: t := by
-      intro g hg
+    have tail : firstCut cs qclass t = some c →
+        c ∈ cs ∧ c.active = true ∧ c.qclass = qclass ∧ c.name ∈ cand :: t := by
+      intro hg
       obtain ⟨a, b, c', d⟩ := ih hg
       exact ⟨a, b, c', List.mem_cons_of_mem _ d⟩
     unfold firstCut at h
     cases hf : findCut cs cand qclass with
-    | none => simp only [hf] at h; exact tail c h
+    | none => simp only [hf] at h; exact tail h
     | some k =>
       simp only [hf] at h
       by_cases ha : k.active = true
@@ -484,7 +485,7 @@ theorem firstCut_spec (cs : List Cut) (qclass : UInt16) (cands : List Bytes) (c 
         simp only [Bool.and_eq_true, beq_iff_eq] at hp
         exact ⟨hm, ha, hp.2, by rw [hp.1]; exact List.mem_cons_self⟩
       · simp only [ha] at h
-        exact tail c h
+        exact tail h
 
 /-- **Subtree-cut lookup** (`nxDomainCutCache.lookup`): only a cut recorded for
 the question's own name or one of its ancestors (label boundaries, escapes
@@ -504,19 +505,19 @@ theorem firstCutWire_spec (H : Bytes → UInt64) (byHash : UInt64 → Option Cut
   induction cands with
   | nil => simp [firstCutWire] at h
   | cons cand t ih =>
-    have tail : ∀ g, firstCutWire H byHash qclass t = some g →
-        g.active = true ∧ g.qclass = qclass ∧
-          ∃ z ∈ cand :: t, ∃ pz, present z = some pz ∧ foldName pz = foldName g.name := by
-      intro g hg
+    have tail : firstCutWire H byHash qclass t = some c →
+        c.active = true ∧ c.qclass = qclass ∧
+          ∃ z ∈ cand :: t, ∃ pz, present z = some pz ∧ foldName pz = foldName c.name := by
+      intro hg
       obtain ⟨a, b, z, hz, rest⟩ := ih hg
       exact ⟨a, b, z, List.mem_cons_of_mem _ hz, rest⟩
     unfold firstCutWire at h
     cases hk : keyWirePreimage cand 0 qclass false with
-    | none => simp only [hk] at h; exact tail c h
+    | none => simp only [hk] at h; exact tail h
     | some pre =>
       simp only [hk] at h
       cases hs : byHash (H pre ^^^ nxDomainCutHashSalt) with
-      | none => simp only [hs] at h; exact tail c h
+      | none => simp only [hs] at h; exact tail h
       | some k =>
         simp only [hs] at h
         split at h
@@ -526,7 +527,7 @@ theorem firstCutWire_spec (H : Bytes → UInt64) (byHash : UInt64 → Option Cut
           simp only [Bool.and_eq_true, beq_iff_eq] at hc
           obtain ⟨p, hp, hf⟩ := (wireNameEq_iff' cand k.name).mp hc.1.2
           exact ⟨hc.2, hc.1.1.1, cand, List.mem_cons_self, p, hp, hf⟩
-        · exact tail c h
+        · exact tail h
 
 /-- **Subtree-cut lookup on the wire** (`lookupWire`): whatever the hash index
 returns is re-verified — class and the denied name against a suffix of the
@@ -563,7 +564,6 @@ theorem ladder_identity_serveMsg (H : Bytes → UInt64) (W : World) (name : Byte
   cases hd : decodedHit H W.st name qtype qclass cd client with
   | some e => exact ⟨e, rfl, route_identity_decodedHit H W.st name qtype qclass cd client e hd⟩
   | none =>
-    simp only
     by_cases hg : (cd || client.isSome || hasECS) = true
     · simp only [hg, if_true]
       cases hf : failureLookup H W.fs name qtype qclass cd client with
@@ -577,7 +577,6 @@ theorem ladder_identity_serveMsg (H : Bytes → UInt64) (W : World) (name : Byte
         obtain ⟨_, _, h3, h4⟩ := route_identity_cutLookup W.cs name qclass c hc
         exact ⟨hg.1.1, hg.1.2, hg.2, h3, h4⟩
       | none =>
-        simp only
         cases hf : failureLookup H W.fs name qtype qclass cd client with
         | some f => exact route_identity_failureLookup H W.fs name qtype qclass cd client f hf
         | none => trivial
@@ -594,7 +593,6 @@ theorem ladder_identity_storeGet (H : Bytes → UInt64) (W : World) (name : Byte
   cases hd : storeLookup H W.st name qtype qclass cd with
   | some e => exact ⟨e, rfl, route_identity_storeLookup H W.st name qtype qclass cd e hd⟩
   | none =>
-    simp only
     by_cases hg : (cd || hasECS) = true
     · simp only [hg, if_true]
       cases hf : failureLookup H W.fs name qtype qclass cd none with
@@ -607,7 +605,6 @@ theorem ladder_identity_storeGet (H : Bytes → UInt64) (W : World) (name : Byte
         obtain ⟨_, _, h3, h4⟩ := route_identity_cutLookup W.cs name qclass c hc
         exact ⟨hg.1, hg.2, h3, h4⟩
       | none =>
-        simp only
         cases hf : failureLookup H W.fs name qtype qclass cd none with
         | some f => exact route_identity_failureLookup H W.fs name qtype qclass cd none f hf
         | none => trivial
@@ -647,7 +644,7 @@ theorem ladder_identity_serveWire (H : Bytes → UInt64) (W : World) (w : Bytes)
         rw [hs] at this
         obtain ⟨e, rfl, hid⟩ := this
         rcases hid with hid | ⟨c, _, hc, _⟩
-        · exact ⟨e, [], p, rfl, rfl, hid, trivial⟩
+        · exact ⟨e, [], p, rfl, hp, hid, trivial⟩
         · cases hc
       | cut c =>
         rw [hs] at this
@@ -678,20 +675,22 @@ theorem ladder_identity_serveWire (H : Bytes → UInt64) (W : World) (w : Bytes)
           exact ⟨e0, rest, p, rfl, hp, hid, hl⟩
   | none =>
     simp only
-    by_cases hcd : cd = true
-    · simp only [hcd, if_true]
+    revert decoded
+    cases cd with
+    | true =>
+      intro decoded
+      rw [if_pos rfl]
       cases hf : failureLookupWire H W.fs w qtype qclass true with
-      | some f => exact Or.inl (hcd ▸ route_identity_failureLookupWire H W.fs w qtype qclass true f hf)
-      | none => simpa [hcd] using decoded
-    · have hcd' : cd = false := by simpa using hcd
-      subst hcd'
-      simp only [Bool.false_eq_true, if_false]
+      | some f => exact Or.inl (route_identity_failureLookupWire H W.fs w qtype qclass true f hf)
+      | none => exact decoded
+    | false =>
+      intro decoded
+      rw [if_neg Bool.false_ne_true]
       cases hc : cutLookupWire H W.cs w qclass with
       | some c =>
         obtain ⟨_, h2, h3⟩ := route_identity_cutLookupWire H W.cs w qclass c hc
         exact ⟨rfl, h2, Or.inl h3⟩
       | none =>
-        simp only
         cases hf : failureLookupWire H W.fs w qtype qclass false with
         | some f => exact Or.inl (route_identity_failureLookupWire H W.fs w qtype qclass false f hf)
         | none => exact decoded
@@ -753,10 +752,9 @@ theorem purge_over_deletes_only (H : Bytes → UInt64) (EF : Bytes → Bytes →
         ¬(p.2.scope.isSome = true ∧ p.2.name ≠ [] ∧ p.2.qtype = qtype ∧ p.2.qclass = qclass ∧
           EF p.2.name name = true) := by
   unfold purgeAnswers
-  simp only [List.mem_filter, mem_remove]
   obtain ⟨k, e⟩ := p
-  simp only [Bool.not_eq_true', Bool.and_eq_true, Bool.not_eq_true', beq_iff_eq, Bool.not_eq_eq_eq_not,
-    Bool.not_true, Bool.and_eq_false_imp]
+  rw [List.mem_filter, mem_remove, mem_remove]
+  simp only
   constructor
   · rintro ⟨⟨⟨h1, h2⟩, h3⟩, h4⟩
     refine ⟨h1, h2, h3, ?_⟩
@@ -765,21 +763,20 @@ theorem purge_over_deletes_only (H : Bytes → UInt64) (EF : Bytes → Bytes →
       cases hn : e.name with
       | nil => exact absurd hn b
       | cons _ _ => rfl
-    have := h4 a hb c d
-    rw [f] at this
-    cases this
+    simp [a, hb, c, d, f] at h4
   · rintro ⟨h1, h2, h3, h4⟩
     refine ⟨⟨⟨h1, h2⟩, h3⟩, ?_⟩
-    intro a b c d
-    cases hef : EF e.name name with
+    cases hef : (e.scope.isSome && !e.name.isEmpty && e.qtype == qtype && e.qclass == qclass && EF e.name name) with
     | false => rfl
     | true =>
       exfalso
       apply h4
-      refine ⟨a, ?_, c, d, hef⟩
+      simp only [Bool.and_eq_true, beq_iff_eq, Bool.not_eq_true'] at hef
+      refine ⟨hef.1.1.1.1, ?_, hef.1.1.2, hef.1.2, hef.2⟩
       intro hn
-      rw [hn] at b
-      cases b
+      have := hef.1.1.1.2
+      rw [hn] at this
+      cases this
 
 /-- **`Purge` removes every entry of the purged question** that sits under its own
 key — both CD partitions, every scope, any ASCII case spelling — provided `EF` is at
